@@ -122,6 +122,10 @@ func (E *Engine) checkProperty(prop, tier string) int {
 			trusted = append(trusted, k+" ("+ct.TrustWhy+")")
 			continue
 		}
+		if ct != nil && ct.InlineOnly() {
+			inlined = append(inlined, k)
+			continue
+		}
 		wg.Add(1)
 		sem <- struct{}{}
 		go func(k string) {
@@ -370,7 +374,7 @@ func (E *Engine) writeBaseline() int {
 	for prop, ps := range pm {
 		var names []string
 		for _, k := range E.matchFuncs(ps.Functions) {
-			if ct := E.CS.get(k); ct != nil && ct.Trusted {
+			if ct := E.CS.get(k); ct != nil && (ct.Trusted || ct.InlineOnly()) {
 				continue
 			}
 			fr := E.verifyFunc(k)
